@@ -1,9 +1,22 @@
 package quic
 
-// [UQUIC] SetConnectionIDLimit was previously used to set a custom active connection ID
-// limit on the connIDManager. In quic-go v0.59.1, the connIDManager no longer stores
-// this limit — it is enforced via protocol.MaxActiveConnectionIDs and the peer's
-// transport parameters. This function is kept as a no-op for API compatibility;
-// the ActiveConnectionIDLimit value in the transport parameters already controls
-// how many connection IDs the server will send us.
-func (h *connIDManager) SetConnectionIDLimit(_ uint64) {}
+import "github.com/refraction-networking/uquic/internal/protocol"
+
+// [UQUIC] SetConnectionIDLimit tells the connIDManager which active_connection_id_limit
+// this endpoint advertised. A plain connection always advertises
+// protocol.MaxActiveConnectionIDs, but a QUICSpec puts its own value on the wire (8 for
+// the Firefox fingerprints), and a conformant peer may then issue that many connection
+// IDs. Enforcing the smaller constant would close such a connection with
+// CONNECTION_ID_LIMIT_ERROR although the peer stayed within the advertised limit.
+func (h *connIDManager) SetConnectionIDLimit(limit uint64) {
+	h.advertisedLimit = limit
+}
+
+// connectionIDLimit is the number of peer-issued connection IDs that are accepted at the
+// same time: what we advertised, but never less than protocol.MaxActiveConnectionIDs.
+func (h *connIDManager) connectionIDLimit() int {
+	if h.advertisedLimit > protocol.MaxActiveConnectionIDs {
+		return int(min(h.advertisedLimit, 1<<16))
+	}
+	return protocol.MaxActiveConnectionIDs
+}
